@@ -108,6 +108,7 @@ type PipeSpec struct {
 	Values   []Value      `json:"values,omitempty"`
 	Schedule []int        `json:"schedule,omitempty"` // release order of held replies (index modulo the number currently held)
 	GapUs    int          `json:"gap_us,omitempty"`   // pause after each release
+	HoldMs   int          `json:"hold_ms,omitempty"`  // wait this long before the first release (lets requests pile up behind held ones)
 
 	// cluster-side redirection state (C13): the proxy's view is the fixture topology, the truth is this
 	Moved     []SlotNode `json:"moved,omitempty"`     // slot really owned by Node: everybody else answers -MOVED
@@ -478,6 +479,9 @@ func runPipesQuiet(f *Fixture, spec *PipeSpec, want []int, deadline, quiet time.
 		}
 	}
 	gap := time.Duration(spec.GapUs) * time.Microsecond
+	if expectHeld > 0 && spec.HoldMs > 0 {
+		time.Sleep(time.Duration(spec.HoldMs) * time.Millisecond)
+	}
 	if expectHeld > 0 {
 		idle := time.Now()
 		si := 0
